@@ -195,6 +195,95 @@ reg(
     "DESIGN.md section 4 C09",
 )
 
+reg(
+    "C06",
+    "Two explicit TLA+ R-specs: AhabRom.tla (boot-ROM acceptance automaton over the file, authenticated-coverage intervals) and AhabLayout.tla (container slots, "
+    "offsets, no overlap, update_fields / parse history); each has an MC form with an abstract builder and tamper marker proving lemmas (incl. the 64 used x revoke "
+    "pairs and tamper coverage) and emitting the case space; SPSDK builds every case, an independent executor walks the bytes, TLC batch trace validation decides each "
+    "walk; SPSDK's own parse and verify are decided by the same spec on valid exports and on single-bit corruptions drawn from the spec's authenticated intervals",
+    "model checking (35k states quick, 151k thorough) + ~1.9k (thorough ~29k) traces of real executions over all 18 family/revision pairs, container versions 1 and 2, "
+    "RSA-2048/3072/4096 and P-256/384/521 SRK tables, every used_srk_id x revoke mask, image_size_alignment variations, encrypted images.",
+    "Crypto facts (SHA-2 / SM3, ECDSA and RSA-PSS verification, AES-CBC decryption) come from hashlib and cryptography called directly; offsets, ranges, coverage and "
+    "decoded = input are recomputed by TLC. Format constants frozen from the documented structures plus one golden artefact. verify() authenticating the re-serialised "
+    "object (many tamper classes reported clean, some crashes) is a registered design-level known finding with one key per field class.",
+    "DESIGN.md section 4 C06",
+)
+
+reg(
+    "C07",
+    "Explicit TLA+ R-spec of HAB4 image acceptance (HabRom.tla + HabLayout.tla): IVT, boot data, DCD / XMCD, then the CSF as a command automaton (Install SRK with fuse "
+    "hash, Install CSFK / IMGK with X.509 chain, Authenticate CSF and Data with CMS over exactly header + commands / the listed blocks, Install Secret Key, Decrypt Data "
+    "with AES-CCM) with a coverage clause and boot-data-length bounds; TLC model-checks it over abstract images built by the documented CST layout x 13 tampered regions x "
+    "11 design mutants and enumerates the cases; each is built through HabContainer.load_from_config; an independent executor walks the exported bytes; TLC batch trace "
+    "validation decides every image, every single-bit-tampered copy and SPSDK's own parse of the same bytes",
+    "model checking (22k states quick, 552k thorough; 17 actions fire; 7 lemmas) + validated traces (363 builds + 479 tampers quick; 5.8k builds + 24k tampers "
+    "thorough): 4 layout classes (all 17 families), plain / auth / enc, none / DCD / XMCD, RSA and ECC SRK tables of 1..4 keys with every source index, NOCAK, three "
+    "key-supply variants, MAC 4..16, DEK 128/192/256, application sizes around 4 KiB and 16-byte boundaries; 11 golden images accepted.",
+    "SHA-256, RSA / ECDSA, X.509, CMS and AES-CCM facts come from hashlib, cryptography and asn1crypto called directly; every range is recomputed by TLC. Encrypted "
+    "images not parsing back (application located by a reset-vector heuristic in ciphertext) is a registered design-level known finding. NOCAK key index, engine bytes, "
+    "signing time and hash-only SRK entries are outside the asserted domain.",
+    "DESIGN.md section 4 C07",
+)
+
+reg(
+    "C08",
+    "Two TLA+ R-specs: KeyCodec.tla (length algebra: key = (type, size, leading-byte profile), ECDSA signature = (byte length, top bit) of r and s; DER / raw / NXP "
+    "lengths, codec clauses, sign/verify matrix) and KeyFlow.tla (a key going through export / parse / to-public and a signature through sign / re-encode / tamper / "
+    "verify, parametric in the party: library, nxpcrypto CLI, cryptography called directly, pure Python); TLC checks the lemmas over all 30473 profiles and the complete "
+    "flow graph and generates cases and behaviours; Python builds integers and pool keys with exactly the requested profile (valid signatures for arbitrary (r, s) by "
+    "public-key recovery), runs SPSDK and the independent base in both directions; TLC decides every observation and trace; an I-spec of SPSDK's length sniffing "
+    "predicts and names the known finding",
+    "Exhaustive model checking of both specs; the codec lane is exhaustive over every length profile in both tiers; key and signature parameter matrices exhaustive at "
+    "depth 2 (quick) / 3-4 with every single-bit tamper position (thorough); longer chains are seeded simulations (45k traces quick, ~300k thorough).",
+    "Trusted: TLC, cryptography called directly with the standard parameters, harness/lib/refpk.py (pure-Python P-256/384/521 ECDSA verify and recovery, RSA v1.5 / PSS "
+    "verify, strict DER; self-tested at every start), hashlib. Certificates, SHA-1/MD5/SM3, SM2 and PQC keys and raw private scalars are outside the asserted domain. "
+    "ECDSA encoding guessed from the signature length is a registered design-level known finding.",
+    "DESIGN.md section 4 C08",
+)
+
+reg(
+    "C15",
+    "Explicit TLA+ R-spec of debug authentication: symbolic message terms and the device acceptance automaton (DatTerms.tla), a two-party protocol with a Dolev-Yao "
+    "intruder and binding invariants (Dat.tla), byte layouts per protocol version and credential class (DatLayout.tla, anchored lengths re-derived in an ASSUME); TLC "
+    "model-checks the binding invariants and enumerates 164 credential cases and 2304 substitution attempts; SPSDK plays the host for every DAT family; an independent "
+    "device twin walks the real bytes, evaluates the crypto facts with cryptography and hashlib and splices every substitution onto real responses; TLC batch trace "
+    "validation decides every trace",
+    "Protocol invariants (Accept implies the response was built for the session's challenge, that credential and beacon, and for ECC that device) exhaustively for 2 "
+    "devices, 2 challenges, 2 beacons, <= 3 host answers (15k states quick, 373k thorough); every observation of the real code (338 scenarios over all 73 DAT families "
+    "quick; 124 family revisions thorough) decided by TLC: offsets, lengths and signed ranges recomputed, crypto facts required TRUE, attempt verdicts equal the automaton's.",
+    "Trusted: TLC, cryptography verify primitives, hashlib and the twin's walkers (anchored on 5 golden credentials and 3 challenges; container v2 follows documentation "
+    "tables only). RoT hash asserted where the image tools define a value. The RSA versions do not bind the device UUID by protocol definition (stated in the spec).",
+    "DESIGN.md section 4 C15",
+)
+
+reg(
+    "C16",
+    "TLA+ R-spec of BinaryImage as a tree and source-map algebra plus a composition-history state machine (BinImage.tla) and TLA+ acceptance automata for Intel-HEX, "
+    "S-record and BIN files (ImgFiles.tla: checksums, record lengths, 32-bit addresses as limbs recomputed by TLC); TLC model-checks the lemmas over histories and over "
+    "every tree of a bounded space and emits all trees and histories; each is built on real BinaryImage objects, saved and loaded in all three formats at nine 32-bit "
+    "base-address classes; every observation is decided by TLC batch trace validation; files from an independent encoder are loaded by SPSDK and compared with the "
+    "TLA+ decoding",
+    "Model checking of the composition algebra (42k states quick, 405k thorough; 31k trees quick, 494k thorough as enumerated initial states) plus conformance of real "
+    "executions: 42.7k traces / 229k events / 3.6k file round trips quick; 647k traces / 3.3M events / 48k round trips thorough.",
+    "Trusted: TLC, hex-pair tokenisation of file lines, Python's own text decoding for the 'textlike' fact, the raw-file encoder (decoded by the TLA+ automata before it "
+    "counts). Own binary longer than explicit size, export content of invalid trees, rand patterns and HEX/S19 gap bytes are not asserted. BIN load refusal for "
+    "text-like payloads and HEX/S19 save crash with an empty patterned sub-image are registered known findings.",
+    "DESIGN.md section 4 C16",
+)
+
+reg(
+    "C17",
+    "TLA+ R-spec of freshness (Fresh.tla: secrets are ids; Construct / Export / Restart guarded by NoSharedSecret and NoNonceReuse), model-checked under an ideal "
+    "generator, plus an implementation-shaped spec of draw times (FreshImpl.tla) whose pre-repair variant predicts the reuse; TLC enumerates and simulates construction "
+    "histories over kinds x how x user-supplied fields; each interpreter segment runs on the real code in a fresh interpreter with spsdk.crypto.rng.token_bytes observed "
+    "from outside; secrets are read from attributes and exported bytes by independent readers and canonicalised to first-occurrence ids; TLC (FreshTrace) decides every history",
+    "Exhaustive for all histories of <= 2 (quick) / <= 3 (thorough) constructions over the 13 kind x how items (29 items with user-supplied variants up to 2), same-kind "
+    "restart pairs, seeded TLC-simulated interleavings and one 70..130-construction history per base item (43k states quick, 1M thorough).",
+    "Trusted: TLC, the readers in c17_child.py (SB2 / MBI / OTFAD / IEE / BEE / HAB CSF offsets), cryptography keywrap / ECB / CBC. Collisions of honest >= 64-bit draws "
+    "are neglected; OTFAD / IEE through configuration have nothing self-chosen; the narrow OTFAD filler is asserted only in short histories.",
+    "DESIGN.md section 4 C17",
+)
+
 NOT_YET = {
 }
 
